@@ -10,7 +10,8 @@
 //
 //	strict plans (one sequence at a time, single-action check groups, no continuous groups): no plugin invocation at all;
 //	other plans: no invocation of the action whose write failed, of a later action of its sequence, of an action of the
-//	sequence / group / block whose write failed; none at all if the plan's write failed.
+//	sequence / group / block whose write failed; none at all if the plan's write failed (actions of continuous groups
+//	excepted for block and plan writes: their thread runs concurrently with the state machine).
 //
 // The child logs one line per event with unbuffered writes to stdout (they survive os.Exit):
 //
@@ -348,11 +349,14 @@ func runChild(p, k int) obs {
 func depends(kind, obj, path string) bool {
 	f := strings.Split(obj, "/")
 	p := strings.Split(path, "/")
+	// a continuous group runs in its own thread, concurrently with the state machine that writes the plan and the
+	// blocks: an invocation of it between the failed write and the exit of the process does not depend on that write
+	cont := p[0] == "c" && p[2] == strconv.Itoa(engine.GCont)
 	switch kind {
 	case "plan":
-		return true
+		return !cont
 	case "block": // b/<bi>
-		return (p[0] == "s" && p[1] == f[1]) || (p[0] == "c" && p[1] == f[1])
+		return ((p[0] == "s" && p[1] == f[1]) || (p[0] == "c" && p[1] == f[1])) && !cont
 	case "seq": // q/<bi>/<si>
 		return p[0] == "s" && p[1] == f[1] && p[2] == f[2]
 	case "checks": // g/<scope>/<g>
